@@ -304,6 +304,16 @@ class RewritingContext:
                     self._might_be_leaf_function(func)
                 )
 
+        # A block may belong to several functions, while a patch is told
+        # about only one of them; its red zone is live if any might be a
+        # leaf.
+        self._leaf_blocks = {
+            block
+            for func in self._functions
+            if leaf_functions.get(func.uuid, 1)
+            for block in func.get_all_blocks()
+        }
+
         return leaf_functions
 
     def _log_patch_error(
@@ -388,8 +398,10 @@ class RewritingContext:
         """
 
         # Assume that any block not in a function could be a leaf function
-        is_leaf = not context.function or bool(
-            self._leaf_functions.get(context.function.uuid, 1)
+        is_leaf = (
+            not context.function
+            or bool(self._leaf_functions.get(context.function.uuid, 1))
+            or context.block in self._leaf_blocks
         )
 
         registers = self._abi._allocate_patch_registers(patch.constraints)
